@@ -28,10 +28,10 @@ func init() {
 }
 
 func runC17(c *engine.Ctx) {
-	r1 := c.Rule("R1", "every access to PeerManager.peerProcesses holds peerProcessesLk", 8)
+	r1 := c.Rule("R1", "every access to PeerManager.peerProcesses holds peerProcessesLk", 3)
 	r2 := c.Rule("R2", "a delete on behalf of a process (shutdown callback) is guarded by 'stored instance is that process'", 1)
-	r3 := c.Rule("R3", "start only on create; shutdown idempotent; last disconnect deletes and shuts down", 3)
-	r4 := c.Rule("R4", "FIFO builders (append at tail, take from head, under the lock); single consumer goroutine", 3)
+	r3 := c.Rule("R3", "start only on create; shutdown idempotent; last disconnect deletes and shuts down", 2)
+	r4 := c.Rule("R4", "FIFO builders (append at tail, take from head, under the lock); single consumer goroutine", 2)
 
 	table := c.P.Field("peermanager", "PeerManager", "peerProcesses")
 	lk := c.P.Field("peermanager", "PeerManager", "peerProcessesLk")
